@@ -126,6 +126,20 @@ def gen_docs(c, n):
     for w in corpus['documents']:
         docs.append({'xml': w['xml'], 'cls': 'corpus:' + w['name'], 'has_ids': w.get('has_ids', True), 'dm': w.get('dm', 'promela'),
                      'skip': w.get('skip', [])})
+    # string literals as child text of state-local <data> and of <assign> elements, in documents large enough for the
+    # DOM to span several heap blocks: the order in which a back-end walks lists of such elements decides the numbers
+    # of the literals it emits
+    for nst in (12, 40, 70):
+        parts = ['<scxml xmlns="http://www.w3.org/2005/07/scxml" version="1.0" datamodel="promela" binding="late" initial="s0" name="lit">'
+                 '<datamodel><data id="mode" type="int">\'idle\'</data><data id="last" type="int">\'none\'</data></datamodel>']
+        for i in range(nst):
+            nxt = 's%d' % (i + 1) if i + 1 < nst else 'pass'
+            parts.append('<state id="s%d"><datamodel><data id="tag%d" type="int">\'tag.%d.initial\'</data></datamodel>'
+                         '<onentry><assign location="mode">\'mode.%d.entered\'</assign><raise event="step.%d.begin"/></onentry>'
+                         '<transition event="step.%d.begin" target="%s"><assign location="last">\'last.%d.taken\'</assign>'
+                         '<log label="step" expr="tag%d"/></transition></state>' % (i, i, i, i, i, i, nxt, i, i))
+        parts.append('<final id="pass"/></scxml>')
+        docs.append({'xml': ''.join(parts), 'cls': 'literal-text', 'has_ids': True, 'dm': 'promela', 'skip': []})
     while len(docs) < n:
         r = rng.random()
         dm = 'promela' if rng.random() < 0.85 else rng.choice(['null', 'lua'])
